@@ -38,7 +38,7 @@ CHECKS = {
              note="Trusted: TLC; Depfile.tla's Encode as what GCC (>= 10 and < 10) and Clang write, Decode as the documented reading. Bounded: names <= 3 characters over an 8-character alphabet, <= 3 dependencies exhaustively, 24-name lists sampled."),
  "C06": dict(cat="model_checking", ref="6.C06", tech="pool assignments x -j x jobserver sizes x failures x interrupts generated from Families.tla; all completion orders on the real Plan/Builder/pools and the real POSIX jobserver client on a real FIFO; TLC trace validation against the limit / no-idle / token monitors of RefTrace.tla; design-level model checking of NinjaImplMC.tla on pool graphs (invariants Limits and NoIdle, liveness Termination under FairSpec), bound to the code by replaying every recorded plain invocation step by step on the model's invocation state (ImplDynTrace.tla)",
              text="Invariants at every Start (running <= -j, per-pool <= depth, console 1, running <= tokens held, started once), at every Wait (no startable command while a slot is free and budget lasts), at Exit on every path (tokens in the FIFO = initial, never 'stuck'); termination by a watchdog on each invocation. Design level: every completion and failure order of one invocation over pool graphs, -j 1..3, -k 1/2/unlimited, exhaustively; the dynamic conformance (evidence: impl_conformance.dynamic) carries it to the code."),
- "C07": dict(cat="fault_enumeration", ref="6.C07", tech="named crash points (VERIF_CRASH_POINT hooks) x passage number and interrupts at every wait, enumerated from Families.tla; each invocation of the real classes is a forked process that dies at the point; recovery builds validated by TLC against NinjaRef!CleanContent and the interrupt clauses",
+ "C07": dict(cat="fault_enumeration", ref="6.C07", tech="named crash points (VERIF_CRASH_POINT hooks) x passage number and interrupts at every wait, enumerated from Families.tla; each invocation of the real classes is a forked process that dies at the point; recovery builds validated by TLC against NinjaRef!CleanContent and the interrupt clauses; design level: NinjaImplMC.tla with the Crash action (any point of a build, any subset of running commands completing as orphans, build-log record without deps-log record) model-checked for Recovers / NoStale",
              text="Fault enumeration over the crash points between every two persistence steps of FinishCommand/RecordCommand/RecordDeps and over interrupts, with orphaned commands completing or not; the recovery build must succeed and leave the needed closure equal to a clean build; after an interrupt: status 130, lock file gone, modified outputs (all outputs of depfile commands) gone."),
  "C10": dict(cat="model_checking", ref="6.C10", tech="metamorphic twin scenarios (discovered dependencies vs the same written as implicit inputs) generated from Families.tla, both run on the real engine; TLC trace validation compares commands, results and final contents per invocation (RefTrace.tla twin monitor)",
              text="For every scenario with depfile / deps=gcc / deps=msvc dependencies (sources or generated, with or without a manifest path) and every change set and schedule, the run must start the same commands, end the same way and leave the same contents as the declared twin; ordering of generated headers is checked by the C04 monitor on the same traces. KF-DEPS-SKIPPED is reported by signature."),
